@@ -33,6 +33,8 @@ type schedDone struct {
 	Bounds     map[string]int `json:"bounds"`
 	Pruned     int            `json:"pruned"`
 	Races      int            `json:"race_reports"`
+	FreeRuns   int            `json:"free_runs"`
+	FreeRaces  int            `json:"free_race_reports"`
 }
 
 // SchedCustom returns the Custom runner of a scheduled check.
@@ -53,7 +55,7 @@ func SchedCustom(prop string, race bool) func(tier string, env *Env) *Summary {
 		var wg sync.WaitGroup
 		perScen := map[string]int{}
 		bounds := map[string]int{}
-		steps, points, pruned, maxThreads, races := 0, 0, 0, 0, 0
+		steps, points, pruned, maxThreads, races, freeRuns, freeRaces := 0, 0, 0, 0, 0, 0, 0
 		for sh := 0; sh < env.Workers; sh++ {
 			wg.Add(1)
 			go func(sh int) {
@@ -145,6 +147,8 @@ func SchedCustom(prop string, race bool) func(tier string, env *Env) *Summary {
 					sum.Complete = false
 				}
 				races += done.Races
+				freeRuns += done.FreeRuns
+				freeRaces += done.FreeRaces
 			}(sh)
 		}
 		wg.Wait()
@@ -159,6 +163,7 @@ func SchedCustom(prop string, race bool) func(tier string, env *Env) *Summary {
 		sum.Extra["race_detector"] = race
 		if race {
 			sum.Extra["race_reports"] = races
+			sum.Extra["free_running_race_pass"] = map[string]any{"runs": freeRuns, "race_reports": freeRaces, "role": "cross-check only, not the deciding step"}
 		}
 		sum.schedSteps = steps
 		return sum
@@ -207,3 +212,39 @@ func SchedReplay(root string, v VRec) int {
 }
 
 var _ = time.Now
+
+// MergeSched runs the scheduled scenarios of prop and merges them into an existing summary
+// (used by checks that have a sequential and a schedule part).
+func MergeSched(prop string, race bool) func(tier string, env *Env, sum *Summary) {
+	return func(tier string, env *Env, sum *Summary) {
+		part := SchedCustom(prop, race)(tier, env)
+		sum.Violations = append(sum.Violations, part.Violations...)
+		sum.Engine = append(sum.Engine, part.Engine...)
+		if !part.Complete {
+			sum.Complete = false
+		}
+		for k := range part.States {
+			sum.States[k] = struct{}{}
+		}
+		for k, n := range part.Outcomes {
+			sum.Outcomes["schedules: "+k] += n
+		}
+		for k, n := range part.Families {
+			sum.Families["sched:"+k] += n
+		}
+		for k, n := range part.Notes {
+			sum.Notes[k] += n
+		}
+		sp := map[string]any{}
+		for k, v := range part.Extra {
+			sp[k] = v
+		}
+		sp["schedules"] = part.Evaluated
+		sp["happens_before_states"] = len(part.States)
+		sum.Extra["schedule_part"] = sp
+		sum.Sub += part.Evaluated
+		if len(part.Samples) > 0 {
+			sum.Samples = append(sum.Samples, part.Samples[0])
+		}
+	}
+}
